@@ -141,6 +141,21 @@ def showHandle (s : StaticSound Float) : String :=
 def showFrames (fs : List (Frame Float)) : String :=
   fs.foldl (fun acc f => acc ++ " " ++ show32 f.left ++ " " ++ show32 f.right) ""
 
+/-- `count` process calls of `len` frames: the handle after the last one and the index of the first call whose
+    output was not silent (`-1`: none) -/
+def procN (st : StaticSuiteState) (len : Nat) (dt : Float) :
+    Nat → Nat → Option Nat → StaticSound Float → StaticSuiteState × String
+  | 0, _, first, s =>
+    ({ st with s := some s }, showHandle s ++ " first=" ++ (match first with | some j => toString j | none => "-1"))
+  | n + 1, j, first, s =>
+    match s.process twinFuel len dt st.info.toInfo with
+    | .ok (s', out) =>
+      let first' := match first with
+        | some k => some k
+        | none => if out.any (fun f => f.left != 0.0 || f.right != 0.0) then some j else none
+      procN st len dt n (j + 1) first' s'
+    | .error f => ({ st with s := none }, faultLine f)
+
 def staticStep (st : StaticSuiteState) (tok : List String) : Option (StaticSuiteState × String) :=
   match tok with
   | "info.clocks" :: _ | "info.mods" :: _ => (infoStep st.info tok).map (fun i => ({ st with info := i }, "ok"))
@@ -175,6 +190,9 @@ def staticStep (st : StaticSuiteState) (tok : List String) : Option (StaticSuite
           match s.process twinFuel len dt st.info.toInfo with
           | .ok (s', out) => pure ({ st with s := some s' }, showHandle s' ++ showFrames out)
           | .error f => pure ({ st with s := none }, faultLine f)
+      | "procn" :: len :: dt :: count :: _ => do
+          let len ← nat? len; let dt ← f64? dt; let count ← nat? count
+          pure (procN st len dt count 0 none s)
       | ["vol", v, tw] => do let v ← parseValue codec32 v; let tw ← parseTween tw; cmd (.setVolume v tw)
       | ["rate", v, tw] => do let v ← parseValue codec64 v; let tw ← parseTween tw; cmd (.setPlaybackRate v tw)
       | ["pan", v, tw] => do let v ← parseValue codec32 v; let tw ← parseTween tw; cmd (.setPanning v tw)
